@@ -254,7 +254,7 @@ pub fn run(tier: Tier) -> i32 {
     }
     work.push(Work::Scale);
     work.push(Work::LongQueries);
-    let fams: Vec<crate::e1::ListSpace> = vec![crate::families::scale_family(true), crate::families::unicode_family(), crate::families::sorted_run_family()];
+    let fams: Vec<crate::e1::ListSpace> = vec![crate::families::scale_family(true), crate::families::unicode_family(), crate::families::sorted_run_family(), crate::families::r8_metadata_family()];
     for (fi, f) in fams.iter().enumerate() {
         let mut i = 0;
         while i < f.files.len() {
